@@ -106,6 +106,11 @@ func programCorpus(max int) []corpusFile {
 		}
 		if filepath.Ext(p) == ".go" && info.Size() < 6000 {
 			if b, err := os.ReadFile(p); err == nil {
+				// files marked "// skip" document known upstream issues (out of memory,
+				// not implemented): they are listed in KNOWN_FINDINGS.txt and the generators steer around them
+				if strings.HasPrefix(string(b), "// skip") {
+					return nil
+				}
 				rel, _ := filepath.Rel(root, p)
 				out = append(out, corpusFile{rel, -1, string(b)})
 			}
